@@ -80,7 +80,7 @@ func c05One(c *bx.Ctx, v ref.V) {
 		}
 	}
 	rp := func(exp, obs string) bx.Replay {
-		return bx.Replay{Entry: "Marshal/MarshalSize/Header", Value: valueString(v), Expected: exp, Observed: obs + " wire=" + bx.Short(b)}
+		return bx.Replay{Entry: "Marshal/MarshalSize/Header", Value: valueString(v), ValueGob: valueGob(v), Expected: exp, Observed: obs + " wire=" + bx.Short(b)}
 	}
 	ok := true
 	var ms int
